@@ -233,10 +233,18 @@ MUTANTS = [
         "    try:\n        SeqIO.write(seqrecords, genbank_file_handle_or_path, format=\"genbank\")\n    except OSError:\n        warnings.warn(\"GenBank export incomplete\")\n",
         "writer swallows a write error",
     ),
+    (
+        "c10_liftover_memo_keyed_by_id", "C10", G + "location/location.py",
+        "        try:\n            self.first_ancestor_of_type(sequence_type)\n        except NoSuchAncestorException:\n            raise NoSuchAncestorException(\"Location has no ancestor of type {}\".format(sequence_type))\n        if self.parent_type == sequence_type:\n            return self\n        lifted_to_grandparent = self.parent.lift_child_location_to_parent()\n        return lifted_to_grandparent.lift_over_to_first_ancestor_of_type(sequence_type)\n",
+        "        key = (id(self), str(sequence_type))\n        if key in _LIFT_MEMO:\n            return _LIFT_MEMO[key]\n        try:\n            self.first_ancestor_of_type(sequence_type)\n        except NoSuchAncestorException:\n            raise NoSuchAncestorException(\"Location has no ancestor of type {}\".format(sequence_type))\n        if self.parent_type == sequence_type:\n            return self\n        lifted_to_grandparent = self.parent.lift_child_location_to_parent()\n        res = lifted_to_grandparent.lift_over_to_first_ancestor_of_type(sequence_type)\n        if len(_LIFT_MEMO) < 4096:\n            _LIFT_MEMO[key] = res\n        return res\n",
+        "lift-over memo keyed by id(location): a temporary location that died lends its id (and its answer) to a later one",
+    ),
 ]
 
 # helper text appended for the mutant above (kept separate to keep the table readable)
-EXTRA = {}
+EXTRA = {
+    "c10_liftover_memo_keyed_by_id": (G + "location/location.py", "class Location(AbstractLocation, ABC):\n", "_LIFT_MEMO = {}\n\n\nclass Location(AbstractLocation, ABC):\n"),
+}
 # planted changes whose trigger is narrow enough that the default quick budget (700 histories) is not a reliable catch:
 # run the same check with more histories (thorough tier finds them; said so in DESIGN.md 9.5)
 RUNS = {"c10_single_interval_sequence_memo_ignores_strand": 2500}
